@@ -1772,6 +1772,7 @@ def run_two(scs: tuple[dict, dict], root: str, prefix: list[int], init: dict[str
     per_use: list[list[str]] = [[], []]
     executed: list[int] = []
     enabled: list[list[int]] = []
+    leaked: list[Any] = []
     with sim:
         AWSpy = make_spy_class(sim)
 
@@ -1788,8 +1789,14 @@ def run_two(scs: tuple[dict, dict], root: str, prefix: list[int], init: dict[str
                     sim.set_phase('pre')
                     out = 'ok'
                     try:
-                        with aw as f:
+                        if use.get('abandon'):       # entered and written, never exited (see run_history)
+                            f = aw.__enter__()
+                            leaked.append(f)
                             body_plain(use)(f)
+                            out = 'abandoned'
+                        else:
+                            with aw as f:
+                                body_plain(use)(f)
                     except BodyError:
                         out = 'body'
                     except OSError as e:
@@ -1817,7 +1824,13 @@ def run_two(scs: tuple[dict, dict], root: str, prefix: list[int], init: dict[str
                 break
         for t in ths:
             t.join(timeout=10)
-    return dict(ops=sim.ops, outcomes=outcomes, per_use=per_use, executed=executed, enabled=enabled, listing=listing(root))
+    lst = listing(root)
+    for f in leaked:          # handles a history left open: closed outside the interposition, unrecorded
+        try:
+            f.close()
+        except Exception:
+            pass
+    return dict(ops=sim.ops, outcomes=outcomes, per_use=per_use, executed=executed, enabled=enabled, listing=lst)
 
 
 class Pair:
@@ -2032,20 +2045,25 @@ def product_campaign(ck: Ck, do_model: bool = False) -> None:
     big = is_big(ck)
     cases: list[dict] = []
     init = {'a.bin': b'OLDA', 'b.bin': b'OLDB', 'keep.txt': b'k'}
-    words = ['SS', 'BS', 'FS'] + (['SB', 'SSS', 'FB', 'SFS'] if escalated(ck) else [])
+    # round 5: A = entered and written, never exited (the handle stays open); E = the open of that entry is refused (the
+    # entry fails after the prologue has given up the temp file of the abandoned use).  AES: whatever the object still
+    # holds after the failed entry, the last use must not come back to the NAME tmp_1 — B may own it by then
+    words = ['SS', 'BS', 'FS', 'AES'] + (['SB', 'SSS', 'FB', 'SFS', 'AS', 'AEB'] if escalated(ck) else [])
     B = dict(dest='b.bin', chunks=[b'B1', b'B2'])
     variants = [(w, False) for w in words] + ([('SS', True)] if escalated(ck) else [])
     for word, text in variants:
         uses = []
         for u, ch in enumerate(word):
             chunk: Any = b'A%d' % u
-            uses.append(dict(chunks=[chunk.decode() + '\n' if text else chunk], **({'raise_after': 1} if ch == 'B' else {})))
+            uses.append(dict(chunks=[chunk.decode() + '\n' if text else chunk], **({'raise_after': 1} if ch == 'B' else {}),
+                             **({'abandon': True} if ch == 'A' else {})))
         A = dict(dest='a.bin', uses=uses, chunks=[], **({'text': True} if text else {}))
         seq = run_two((A, B), work, [0] * 200, init)
         opsA = [o for o in seq['ops'] if o['w'] == 0]
         n1, n2 = len(opsA), sum(1 for o in seq['ops'] if o['w'] == 1)
         # F: the rename of that use of A is refused (global number of the operation when A runs first up to there)
-        faults = [next(o['k'] for o in opsA if o['u'] == u and o['op'] == 'replace') for u, ch in enumerate(word) if ch == 'F']
+        faults = [next(o['k'] for o in opsA if o['u'] == u and o['op'] == ('replace' if ch == 'F' else 'open') and o['res'] == 'ok')
+                  for u, ch in enumerate(word) if ch in 'FE']
         fault_at = faults[0] if faults else None
         seen_sched: set[tuple[int, ...]] = set()
         nrun = 0
@@ -2067,7 +2085,7 @@ def product_campaign(ck: Ck, do_model: bool = False) -> None:
                     ck.seen(('product', word, text, ex))
                     ck.hist('product_word', word + ('-text' if text else ''))
                     product_check(ck, word, A, B, init, r, fault_at)
-                    if do_model and not text:
+                    if do_model and not text and 'A' not in word:      # the model's histories are complete uses
                         product_case(word, A, B, init, r, cases)
         ck.extra.setdefault('product', {})[word + ('-text' if text else '')] = {'runs': nrun, 'ops': [n1, n2]}
     if do_model and cases:
@@ -2184,8 +2202,8 @@ def product_check(ck: Ck, word: str, A: dict, B: dict, init: dict[str, bytes], r
     for u, ch in enumerate(word):
         got = r['per_use'][0][u] if u < len(r['per_use'][0]) else '<not run>'
         faulted = any(o['w'] == 0 and o['u'] == u for o in hit)
-        want = 'body' if ch == 'B' else 'ok'
-        if (not faulted and got != want) or (faulted and (got == 'ok' or got.startswith(('other', 'hang')))):
+        want = 'body' if ch == 'B' else 'abandoned' if ch == 'A' else 'ok'
+        if (not faulted and got != want) or (faulted and (got in ('ok', 'abandoned') or got.startswith(('other', 'hang')))):
             ck.violation(key('unexpected-outcome'), f'use {u + 1} ({ch}) of the reused writer ended with {got}, '
                                                     f'B is open in between (schedule {r["executed"][:24]})', rp)
         if got == 'ok':
@@ -2198,6 +2216,8 @@ def product_check(ck: Ck, word: str, A: dict, B: dict, init: dict[str, bytes], r
         ck.violation(key('destination-of-the-other-writer-clobbered'),
                      f'b.bin holds {lst.get("b.bin")!r:.40}, expected {_data(B)!r:.40}', rp)
     extra = set(lst) - set(init)
+    if word.endswith('A'):        # the last use is still open: it keeps the one temp file it holds
+        extra -= {o['name'] for o in r['ops'] if o['w'] == 0 and o['u'] == len(word) - 1 and o['op'] == 'open' and o['res'] == 'ok'}
     if extra and not any(o['op'] == 'unlink' for o in hit):
         ck.violation(key('temp-left'), f'{sorted(extra)} left', rp)
     for n0, v0 in init.items():
@@ -2957,8 +2977,9 @@ def run(ck: Ck) -> None:
                'the first and the last) x 14 exception classes x {refused for ever, refused 1 / 2 / 3 / 5 times then accepted '
                '(run only when the persistent run was refused more often than that: otherwise it is the same run)}; in every '
                'fourth reuse history every non-write operation x {PermissionError, KeyboardInterrupt} x {for ever, twice}; '
-               'distinct by (scenario, operation, class, times). Product: writer A = one object used for the words SS, BS, FS '
-               '(F: the rename of that use is refused; + SB, SSS, FB, SFS and a text writer when escalated), writer B a '
+               'distinct by (scenario, operation, class, times). Product: writer A = one object used for the words SS, BS, FS, AES '
+               '(F: the rename of that use is refused; A: entered, written, never exited; E: the open of that entry is '
+               'refused; + SB, SSS, FB, SFS, AS, AEB and a text writer when escalated), writer B a '
                'single-use writer of another file, every pair (k1, k2) of completed operations reached as A^k1 B^k2 and for '
                'every other pair as B^k2 A^k1; distinct by the executed schedule. '
                'Interpreter tie: program = random __exit__ body of the translator subset (2-5 top-level statements, depth <= 3, '
